@@ -56,7 +56,9 @@ theorem frame_deleteChannel_keeps {m m' : Mod} {rows : List Nat} {c : ChanDesc} 
       all_goals
         rw [Bool.not_eq_true', ← Bool.not_eq_true, List.contains_iff_mem, List.mem_append]
         rintro (h | h)
-        · exact hn (Or.inl (List.mem_filter.mp (List.mem_filter.mp h).1).1)
+        · exact hn (Or.inl (by
+            unfold ChanDesc.keys
+            exact List.mem_append_right _ (List.mem_filter.mp h).1))
         · split at h
           · cases h
           · exact hn (Or.inr (List.mem_singleton.mp h))
